@@ -22,6 +22,11 @@ import RV.Drv.CtlCanary
 import RV.Drv.CtlBlueGreen
 import RV.Drv.CtlSts
 import RV.Drv.Isolation
+import RV.Drv.ClosedLoop
+import RV.Drv.Wakeup
+import RV.Drv.TrafficX
+import RV.Drv.Extra1
+import RV.Drv.Extra2
 namespace RV.Drv
 /-- suite name ↦ handler.  One file per suite so that suites can be developed independently. -/
 def lookup : String → Option Handler
@@ -48,5 +53,10 @@ def lookup : String → Option Handler
   | "ctlbluegreen" => some CtlBlueGreen.handle
   | "ctlsts" => some CtlSts.handle
   | "isolation" => some Isolation.handle
+  | "closedloop" => some ClosedLoop.handle
+  | "wakeup" => some Wakeup.handle
+  | "trafficx" => some TrafficX.handle
+  | "extra1" => some Extra1.handle
+  | "extra2" => some Extra2.handle
   | _ => none
 end RV.Drv
